@@ -22,7 +22,8 @@ var Def = driver.PropDef{
 		"R3 validity before data (both stores reject rpos > wpos and rpos+size < wpos with ErrInvalidOffset before any storage read; a closed store yields ErrClosedBacklog); " +
 		"R4 range table (dataRange = (wpos-size, wpos) once wpos >= size else (0, wpos); Reader.IsValid is rpos <= seek <= wpos; Reader.Read advances seek by the count returned; NewReader starts at wpos); " +
 		"R5 mem/file sibling skeleton (roffset/woffset arguments in parameter order, transfer window, wpos += n on write, no position change on read); " +
-		"R6 ring index clamp form (offset = position % size, maxlen only lowered to the ring bounds).",
+		"R6 ring index clamp form (offset = position % size, maxlen only lowered to the ring bounds); " +
+		"R7 capacity (every function that builds a store with an in-memory backing slice leaves size <= cap(backing) on every path; size and the slice are not changed afterwards, the slice is only dropped).",
 	NotDecided: "byte equality at an offset across wrap-arounds (value-level), arithmetic correctness of the bounds beyond the clamp-term comparison, all interleavings.",
 	Trusted:    []string{"go/parser, go/types, go/cfg (x/tools v0.29.0)", "sync.Mutex / sync.Cond semantics", "copy, os.File.ReadAt/WriteAt semantics", "io count contract: an operation handed a byte slice first and returning (int, error) reports 0 <= n <= len(slice) (used to decide `n > 0` / `n != 0` alike)", "package-level error values (io.EOF, io.ErrClosedPipe, Err*) are never nil"},
 	Run:        Run,
@@ -121,6 +122,7 @@ func Run(c *core.Ctx) {
 		stores(c, t)
 	}
 	reader(c)
+	capacity(c, impls)
 
 	// ---- R6
 	ring.ClampFlow(c, "R6.ring", c.Func(pkg, "", "roffset"), ring.ClampSpec{
